@@ -78,6 +78,7 @@ class Highlighter(object):
         lines = []
         current_line = 1
         current_col = 0
+        previous_line = ""
         buffer = ""
         current_type = None
         source_io = io.BytesIO(encode(source))
@@ -105,6 +106,10 @@ class Highlighter(object):
                 diff = lineno - current_line
                 if diff > 1:
                     lines += [""] * (diff - 1)
+
+                if previous_line[current_col:].strip() == "\\":
+                    # The line is continued with a backslash, which is not a token
+                    buffer += previous_line[current_col:].rstrip()
 
                 line += self._format_token(current_type, buffer.rstrip("\n"))
 
@@ -151,6 +156,7 @@ class Highlighter(object):
                     lines.append(self._format_token(current_type, token_line))
 
                 current_line = end[0]
+                previous_line = ""
                 buffer = token_lines[-1][: end[1]]
                 line = ""
                 continue
@@ -158,6 +164,7 @@ class Highlighter(object):
             buffer += token_string
             current_col = end[1]
             current_line = lineno
+            previous_line = token_info.line
 
         return lines
 
